@@ -421,6 +421,12 @@ def _drive(obs, mgr, xfers, spec, mode, do_cancel):
                 log.add('submit.begin', label=x.label)
                 submit_one(mgr, x)
                 log.add('submit.end', label=x.label, error=repr(x.submit_exc) if x.submit_exc else None)
+                if spec.get('sequential') and x.future is not None:
+                    # one transfer after the other on the same manager
+                    try:
+                        x.future.result()
+                    except BaseException:  # noqa - the outcome is collected as usual below
+                        pass
         finally:
             sub_done.set()
 
